@@ -17,11 +17,12 @@ STMTS = {
     'el': 'const _0 = <div id="a">t</div>;', 'comp-id': 'const _0 = <Foo>{{v1}}</Foo>;', 'comp-call': 'const _0 = <Foo>{{f1()}}</Foo>;', 'comp-kids': 'const _0 = <Foo>a{{v2}}<b/></Foo>;',
     'frag': 'const _0 = <>x{{v1}}</>;', 'Fragment': 'const _0 = <Fragment>x</Fragment>;', '_Fragment': 'const _0 = <_Fragment>{{v1}}</_Fragment>;', 'dir': 'const _0 = <div v-foo={{v1}} v-show={{v2}}/>;',
     'model': 'const _0 = <input v-model={{v1}}/>;', 'spread': 'const _0 = <div {{...s1}} class="c"/>;', 'arrowret': 'const _0 = () => <Foo>{{f1()}}</Foo>;', 'nested': 'const _0 = <Foo><C1>{{v1}}</C1></Foo>;',
+    'param-tag': 'const _0 = (Foo) => <Foo a={{v1}}/>;', 'local-tag': 'const _0 = function () {{ const Foo = v1; return <Foo>{{v2}}</Foo>; }};', 'destructured-tag': 'const _0 = ({{ Foo, KeepAlive }}) => [<Foo/>, <KeepAlive>{{v1}}</KeepAlive>];',
     'comp-id-opt': 'const _0 = <C1>{{v3}}</C1>;', 'assign-self': 'let _0; _0 = <Foo>{{v1}}</Foo>;', 'text': 'const _0 = <p>  a  b </p>;', 'keepalive': 'const _0 = <KeepAlive>{{v1}}</KeepAlive>;',
 }
 PREFIX = {
     'none': '', 'assign-same': 'v1 = 5;', 'assign-other': 'v2 = 5;', 'assign-member': 'o1.x = v1;', 'assign-in-fn': 'function p() {{ v1 = 1; }}', 'assign-arrow': 'const p = () => (v1 = 2);',
-    'assign-op': 'v1 += 1;', 'assign-destructure': '[v1] = [3];', 'jsx-temp': 'const p = <Foo>{{f1()}}</Foo>;', 'jsx-temp-fn': 'function p() {{ return <Foo>{{f1()}}</Foo>; }}',
+    'assign-op': 'v1 += 1;', 'assign-destructure': '[v1] = [3];', 'jsx-temp': 'const p = <Foo>{{f1()}}</Foo>;', 'jsx-unbound-keepalive': 'const p = <KeepAlive><Foo/></KeepAlive>;', 'jsx-bound-other-scope': 'const p = (Foo) => <Foo/>;', 'jsx-temp-fn': 'function p() {{ return <Foo>{{f1()}}</Foo>; }}',
     'jsx-temp-arrow': 'const p = () => <C1>{{f1()}}</C1>;', 'jsx-helper': 'const p = <Foo>{{v2}}</Foo>;', 'jsx-frag': 'const p = <>y</>;', 'jsx-el': 'const p = <span/>;',
     'import-fragment': "import {{ Fragment }} from 'vue';", 'import-fragment-alias': "import {{ Fragment as _Fragment }} from 'vue';", 'import-cv': "import {{ createVNode as _createVNode }} from 'vue';",
     'user-slot': 'const _slot = 1;', 'user-isSlot': 'function _isSlot() {{ return false }}', 'jsx-assign': 'v1 = <Foo>{{v1}}</Foo>;', 'jsx-assign-other': 'v2 = <Foo>{{v2}}</Foo>;',
